@@ -249,7 +249,7 @@ fn one_session(ctx: &mut Ctx, source: &str, root: &str, iter: u64) -> Option<Str
         use frost_secp256k1_tr::keys::EvenY;
         let odd = |e: &El<T>| parity_tag::<T>(e) == 1;
         let cellp = format!("P{par_p}");
-        let mut bad = |ctx: &mut Ctx, ty: &str, what: &str| ctx.viol("even-y-helper", &format!("{ty}/{what}"), d("EvenY helper", json!({"type": ty, "what": what, "cell": cellp})));
+        let bad = |ctx: &mut Ctx, ty: &str, what: &str| ctx.viol("even-y-helper", &format!("{ty}/{what}"), d("EvenY helper", json!({"type": ty, "what": what, "cell": cellp})));
         // VerifyingKey
         let vk0 = *grp.pkp.verifying_key();
         let nvk = ident::<T>() - vk0.to_element();
